@@ -130,6 +130,15 @@ def command_jobs(tier, wd, seed):
                   {"c": "send", "s": 0, "text": "num-ended", "cls": "query", "call": {"kind": "get", "m": "num_ended"}},
                   {"c": "idle"}, {"c": "eof", "s": 0}]
         jobs.append({"kind": "command", "cls": cls, "line": "apply ctlfuncs.alias (rebound)", "script": script, "twin": True})
+    # a dotted path into a submodule that the package itself does not import (the resolver has to import it on the way)
+    for cls in ("TaskPool", "SubPool"):
+        call = {"kind": "call", "m": "apply", "args": [{"$path": "ctlpkg.sub.quick2"}], "kwargs": {"num": 2}}
+        script = [{"c": "connect", "s": 0, "width": 80}, {"c": "idle"},
+                  {"c": "send", "s": 0, "text": "apply ctlpkg.sub.quick2 --num 2", "cls": "cmd", "call": call},
+                  {"c": "unimport", "module": "ctlpkg.sub"}, {"c": "idle"}, {"c": "release_all"}, {"c": "idle"},
+                  {"c": "send", "s": 0, "text": "num-ended", "cls": "query", "call": {"kind": "get", "m": "num_ended"}},
+                  {"c": "idle"}, {"c": "eof", "s": 0}]
+        jobs.append({"kind": "command", "cls": cls, "line": "apply ctlpkg.sub.quick2 (submodule import)", "script": script, "twin": True})
     return jobs, nprog
 
 
